@@ -155,6 +155,18 @@ def run(ctx):
     def trig(extra, op, py, spec):
         # regions where the library's parse heuristics are listed findings (by call site + predicate)
         if 'blob=true' in extra:
+            # listed finding F04b, pinned down exactly: the whole input becomes ONE data item (or the library refuses a malformed
+            # signature / key); anything else in this region is a new disagreement
+            if op.startswith('tok '):
+                bh = op.split(' ')[1]
+                if py == 'd' + bh or (py == 'none' and 'sigkey=true' in extra) or (py == 'none' and len(bh) != 128):
+                    return 'F04b'
+                return None
+            if op.startswith('script_rt '):
+                parts = py.split(' ')
+                if len(parts) >= 2 and (parts[1] == 'd' + parts[0] or parts[1] in ('none',) or 'raise:' in py):
+                    return 'F04b'
+                return None
             return 'F04b'
         if 'nest=true' in extra:
             return 'F04a'
